@@ -2,7 +2,6 @@ package main
 
 import (
 	"fmt"
-	"sort"
 	"strings"
 
 	ucfg "github.com/elastic/go-ucfg"
@@ -185,12 +184,14 @@ func flat(prefix string, v interface{}, put func(string, interface{}), r *Rng) {
 	}
 }
 
-func kvsOf(m map[string]interface{}) string {
-	keys := make([]string, 0, len(m))
-	for k := range m {
-		keys = append(keys, k)
+// kvsOf lists the entries of m in one (pseudo-random) enumeration order: the model must not
+// depend on it either.
+func kvsOf(r *Rng, m map[string]interface{}) string {
+	keys := sortedKeys(m)
+	for j := len(keys) - 1; j > 0; j-- {
+		k := r.Intn(j + 1)
+		keys[j], keys[k] = keys[k], keys[j]
 	}
-	sort.Strings(keys)
 	xs := make([]string, len(keys))
 	for i, k := range keys {
 		xs[i] = "((KStr " + coqStr(k) + "), " + coqGval(m[k], "") + ")"
@@ -245,7 +246,7 @@ func genC05(g *Gen, c09 bool) {
 	for i, m := range overlapForms {
 		o := normOpts{Sep: "."}
 		coqs, descs := repeatOutcomes(r, m, o, runs*2)
-		g.Add(Case{Coq: fmt.Sprintf("CDup %s %s %s", o.coq(), kvsOf(m), coqList(coqs)),
+		g.Add(Case{Coq: fmt.Sprintf("CDup %s %s %s", o.coq(), kvsOf(r, m), coqList(coqs)),
 			Desc: map[string]interface{}{"kind": "dup", "form": i, "input": descTree(m), "outcomes": descs},
 			Tags: []string{"dup", fmt.Sprintf("outcomes=%d", len(coqs))}, Nontrivial: true})
 	}
@@ -263,11 +264,8 @@ func genC05(g *Gen, c09 bool) {
 		if r.Bool() {
 			flat = splitMix(r, t)
 		}
-		if len(flat) > 5 {
-			continue
-		}
 		coqs, descs := repeatOutcomes(r, flat, o, runs)
-		g.Add(Case{Coq: fmt.Sprintf("CNormSet %s %s %s", o.coq(), kvsOf(flat), coqList(coqs)),
+		g.Add(Case{Coq: fmt.Sprintf("CNormSet %s %s %s", o.coq(), kvsOf(r, flat), coqList(coqs)),
 			Desc: map[string]interface{}{"kind": "normset", "input": descTree(flat), "outcomes": descs},
 			Tags: []string{"normset", fmt.Sprintf("outcomes=%d", len(coqs))}, Nontrivial: len(flat) > 1})
 	}
@@ -353,12 +351,9 @@ func genC05(g *Gen, c09 bool) {
 		if r.Bool() {
 			flat = splitMix(r, t)
 		}
-		// the runtime picks the order in which the keys of flat are inserted, and the internal tree
-		// may depend on it (a padding nil merged with a literal nil becomes an empty object): the
-		// model must produce the observed tree under some insertion order
-		if len(flat) <= 6 {
+		{
 			oc, od, _ := newFromObs(flat, o)
-			g.Add(Case{Coq: fmt.Sprintf("CNormSet %s %s %s", o.coq(), kvsOf(flat), coqList([]string{oc})),
+			g.Add(Case{Coq: fmt.Sprintf("CNormSet %s %s %s", o.coq(), kvsOf(r, flat), coqList([]string{oc})),
 				Desc: map[string]interface{}{"kind": "normset", "input": descTree(flat), "outcomes": []string{od}},
 				Tags: []string{"norm", "flat"}, Nontrivial: true})
 		}
